@@ -8,7 +8,8 @@ func init() {
 			{Name: "H_C06_failed_add", Tier: "quick", What: "hybrid(flat, text, metadata) Add / AddWithID failing in the 1st (wrong dimension; zero vector under cosine), 2nd (TextIndex wrapper failing on demand) or 3rd sub-index (unsupported value type before / after supported keys): a battery of 11 searches through the hybrid index and each sub-index answers exactly as before; the index keeps working", Covers: []string{"ran"}},
 			{Name: "H_C06_ids", Tier: "quick", What: "node ids: one inductive step from an arbitrary uint32 counter (three constructors, strictly increasing); hybrid Add on concrete counters incl. a failed Add in between", Covers: []string{"inductive-step", "hybrid"}},
 			{Name: "H_C06_remove", Tier: "quick", What: "5 documents with every subset of modalities: Remove(id) makes it unfindable in all modalities before and after Flush; second Remove and Remove(unknown) fail and change nothing", Covers: []string{"removed", "unknown"}},
-			{Name: "H_C06_readd_vector", Tier: "quick", What: "each of the 5 vector kinds alone: Add, [Flush], Remove(id), [Flush], Add(id, new), [Flush], search, Flush, search — all 8 flush placements: the new content is found exactly once and the old is not", Covers: []string{"ran"}},
+			{Name: "H_C06_readd_vector", Tier: "quick", What: "each of the 5 vector kinds alone, the updated document alone / with one other / among twelve residents: Add, [Flush], Remove(id), [Flush], Add(id, new), [Flush], search, Flush, search — all 8 flush placements: the new content is found exactly once and the old is not", Covers: []string{"ran"}},
+			{Name: "H_C06_remove_many", Tier: "quick", What: "hybrid(flat, text, metadata), 6 documents, EVERY subset removed (64 masks), one Flush for all pending removals: before and after it every removed document is unfindable in every modality (hybrid and each sub-index) and every other document is still found", Covers: []string{"ran"}},
 			{Name: "H_C06_readd_text", Tier: "quick", What: "BM25 alone, all 8 flush placements, plus the representation invariant afterwards", Covers: []string{"ran"}},
 			{Name: "H_C06_readd_meta", Tier: "quick", What: "metadata index alone: old categorical and numeric fields gone, new ones found", Covers: []string{"ran"}},
 			{Name: "H_C06_readd_hybrid", Tier: "quick", What: "hybrid over flat / hnsw + text + metadata, all 8 flush placements, every modality through the hybrid search", Covers: []string{"ran"}},
